@@ -56,7 +56,7 @@ package graph
 //@   modifies alloc, new Memory.*, new map[descriptor.Descriptor]ocispec.Descriptor, new map[descriptor.Descriptor]set.Set[descriptor.Descriptor]
 //@
 //@ func (*Memory).index
-//@   requires [ri] graphRI(m)
+//@   requires [ri] graphRI(m) && fetcher != nil
 //@   let n = K(node)
 //@   loop 0 invariant [bounds] 0 <= $i && $i <= len(successors)
 //@   loop 0 invariant [maps-kept] m.nodes == old(m.nodes) && m.successors == old(m.successors) && m.predecessors == old(m.predecessors)
@@ -112,7 +112,7 @@ package graph
 //@   modifies alloc, new map[digest.Digest]unit
 //@
 //@ func (*Memory).Index
-//@   requires [ri] graphRI(m)
+//@   requires [ri] graphRI(m) && fetcher != nil
 //@   ensures [C07:ri] graphRI(m)
 //@   ensures [C07:indexed] result == nil ==> K(node) in m.nodes && m.nodes[K(node)] == node
 //@   ensures [C07:preds] result == nil ==> (forall s, p descriptor.Descriptor :: inPreds(m, s, p) == (old(inPreds(m, s, p)) || (p == K(node) && succOf(K(node), s))))
